@@ -1,13 +1,169 @@
 /-
-  Driver/Hist — command(s) of the `hist` family (stub: filled in by the owner of the corresponding properties).
+  Driver/Hist — `hist`: run an edit / configuration history through `Model/Graph` and report, after the
+  constructor and after every call, the outcome (ok | exception class), the abstract structure
+  (`Spec/Structure.abs`), the raw registries (so that stale entries are visible), the `WF` verdict with the
+  failing clause names, and which known unsafe pattern (`Spec/Safe`) the call matched in its pre-state.
+
+  in : {"cmd":"hist","init":{"name":s,"comp":C,"group":s,"rail":s},"ops":[O…]}
+       C = {"name":s,"kind":k,"tag":s}
+       O = {"op":"add_source","comp":C,"group":s,"rail":s}
+         | {"op":"add_comp","parent":s | [s…],"comp":C,"group":s,"rail":s}
+         | {"op":"change_comp","name":s,"comp":C,"group":s,"rail":s}
+         | {"op":"del_comp","name":s,"del_childs":b}
+         | {"op":"set_sys_phases","phases":[[s,v]…]}
+         | {"op":"set_comp_phases","name":s,"conf":{"names":[s…]} | {"table":[[s,v]…]} | "bad"}
+       (phase values `v` are opaque strings)
+  out: {"init":"ok"|cls,"state":S,"steps":[{"outcome":"ok"|cls,"unsafe":[ids],"safe15":b,"state":S}…]}
 -/
 import SysLoss.Driver.Wire
+import SysLoss.Spec.Structure
+import SysLoss.Spec.Safe
 
 open Lean
 
 namespace SysLoss
+namespace Hist
 
+abbrev S := Sys PComp String
+
+def kindName : Kind → String
+  | .source => "source" | .pload => "pload" | .iload => "iload" | .rload => "rload" | .rloss => "rloss"
+  | .vloss => "vloss" | .converter => "converter" | .linreg => "linreg" | .pswitch => "pswitch"
+  | .pmux => "pmux" | .rectifier => "rectifier"
+
+def compOf (j : Json) : Option PComp :=
+  match kindOf (jStr j "kind"), j.getObjValAs? String "name" with
+  | some k, .ok n => some { name := n, kind := k, tag := jStr j "tag" }
+  | _, _ => none
+
+def strList (j : Json) : Option (List String) :=
+  match j with
+  | .arr a => a.toList.mapM fun x => match x with | .str s => some s | _ => none
+  | _ => none
+
+def pairList (j : Json) : Option (List (String × String)) :=
+  match j with
+  | .arr a => a.toList.mapM fun x =>
+      match x with
+      | .arr #[.str k, .str v] => some (k, v)
+      | _ => none
+  | _ => none
+
+def str? (j : Json) (k : String) : Option String :=
+  match j.getObjValAs? String k with | .ok s => some s | .error _ => none
+
+def bool? (j : Json) (k : String) : Option Bool :=
+  match j.getObjValAs? Bool k with | .ok s => some s | .error _ => none
+
+def opOf (j : Json) : Option (Op PComp String) := do
+  match jStr j "op" with
+  | "add_source" =>
+    let c ← compOf (← jObj? j "comp")
+    pure (.addSource c (← str? j "group") (← str? j "rail"))
+  | "add_comp" =>
+    let c ← compOf (← jObj? j "comp")
+    let p ← match ← jObj? j "parent" with
+      | .str s => some (ParentArg.one s)
+      | a => (strList a).map ParentArg.many
+    pure (.addComp p c (← str? j "group") (← str? j "rail"))
+  | "change_comp" =>
+    let c ← compOf (← jObj? j "comp")
+    pure (.changeComp (← str? j "name") c (← str? j "group") (← str? j "rail"))
+  | "del_comp" => pure (.delComp (← str? j "name") (← bool? j "del_childs"))
+  | "set_sys_phases" => pure (.setSysPhases (← pairList (← jObj? j "phases")))
+  | "set_comp_phases" =>
+    let cj ← jObj? j "conf"
+    let pc ← match cj with
+      | .str "bad" => some PConfArg.bad
+      | _ =>
+        match jObj? cj "names", jObj? cj "table" with
+        | some n, _ => (strList n).map fun l => PConfArg.conf (.names l)
+        | none, some t => (pairList t).map fun l => PConfArg.conf (.table l)
+        | none, none => none
+    pure (.setCompPhases (← str? j "name") pc)
+  | _ => none
+
+def jPairs (l : List (String × String)) : Json :=
+  .arr (l.map fun (k, v) => Json.arr #[.str k, .str v]).toArray
+
+def jStrs (l : List String) : Json := .arr (l.map Json.str).toArray
+
+def pconfOut : PhaseConf String → Json
+  | .names l => Json.mkObj [("names", jStrs l)]
+  | .table t => Json.mkObj [("table", jPairs t)]
+
+def optStr : Option String → Json
+  | some s => .str s
+  | none => .null
+
+/-- exceptions `save()` raises before it reaches the PMux block (`_rel_update`, `_get_childs_tree`) -/
+def savePre (s : S) : Option String :=
+  match s.parentsErr with
+  | some e => some e
+  | none =>
+    if s.edges.any fun (p, c) =>
+        [p, c].any fun n => match s.nameOf n with
+          | some x => decide (x ∉ dkeys s.nodes)
+          | none => false
+    then some "KeyError" else none
+
+/-- exception of `[self._g[n]._params["name"] for n in self._parents[pidx]]` for the mux at node `m` -/
+def saveMux (s : S) (m : Nat) : Option String :=
+  match s.parentsOf m with
+  | .error e => some e
+  | .ok l => if l.any Option.isNone then some "OverflowError" else none
+
+def stateOut (s : S) : Json :=
+  let a := s.abs
+  let comps := (s.comps.zip a.comps).map fun ((n, c), e) =>
+    Json.mkObj [("id", n), ("name", e.name), ("kind", kindName c.kind), ("ctype", c.kind.ctype.name),
+      ("tag", c.tag), ("preds", jStrs (e.preds.map (·.1))),
+      ("parents", .arr (e.parents.map optStr).toArray), ("addressable", e.addressable),
+      ("group", optStr (dget s.groups e.name)), ("rail", optStr (dget s.rails e.name)),
+      ("pconf", match dget s.phaseConf e.name with | some pc => pconfOut pc | none => .null)]
+  let muxes := s.comps.filter fun p => decide (p.2.kind = .pmux)
+  Json.mkObj [
+    ("name", s.name),
+    ("comps", .arr comps.toArray),
+    ("nodes", .arr (s.nodes.map fun (k, v) => Json.arr #[.str k, (v : Json)]).toArray),
+    ("groups", jPairs s.groups), ("rails", jPairs s.rails),
+    ("phase_conf", .arr (s.phaseConf.map fun (k, v) => Json.arr #[.str k, pconfOut v]).toArray),
+    ("pnames", .arr (s.pnames.map fun (k, v) => Json.arr #[(k : Json), jStrs v]).toArray),
+    ("phases", jPairs s.phases),
+    ("free", .arr (s.free.map fun (n : Nat) => (n : Json)).toArray), ("next", s.next),
+    ("save_pre", optStr (savePre s)),
+    ("save_mux", .arr (muxes.map fun (n, c) => Json.arr #[.str c.name, optStr (saveMux s n)]).toArray),
+    ("wf", jStrs a.failing)]
+
+def outcomeOut : Outcome → Json
+  | .ok => "ok"
+  | .raised c => .str c
+
+def runSteps (s : S) : List (Op PComp String) → List Json
+  | [] => []
+  | op :: ops =>
+    let r := s.step op
+    Json.mkObj [("outcome", outcomeOut r.2), ("unsafe", jStrs (s.unsafeWhy op)),
+                ("safe", decide (s.Safe op)), ("safe15", decide (s.Safe15 op)),
+                ("state", stateOut r.1)] :: runSteps r.1 ops
+
+end Hist
+
+open Hist in
 def cmdHist (j : Json) : Json :=
-  Json.mkObj [("bad-op", "unimplemented: " ++ jStr j "cmd")]
+  match jObj? j "init" with
+  | none => Json.mkObj [("bad-op", "hist: no init")]
+  | some ij =>
+    match (jObj? ij "comp").bind compOf, str? ij "name", str? ij "group", str? ij "rail" with
+    | some c, some name, some g, some r =>
+      match (jArr j "ops").toList.mapM opOf with
+      | none => Json.mkObj [("bad-op", "hist: malformed op")]
+      | some ops =>
+        match (Sys.init name c g r : Option S) with
+        | none => Json.mkObj [("init", "ValueError"), ("steps", Json.arr #[])]
+        | some s =>
+          Json.mkObj [("init", "ok"), ("safe_init", decide (Sys.SafeInit c r)),
+                      ("state", stateOut s), ("steps", .arr (runSteps s ops).toArray)]
+    | _, _, _, _ => Json.mkObj [("bad-op", "hist: malformed init")]
 
 end SysLoss
